@@ -23,6 +23,12 @@ with Python's `ast`):
   _randomlyRewireCrossLinks                   -> rewBreak, rewWrites, rewMoves (the three-statement
       exchange of the second column of `cross_links` as a list of moves between locations)
 
+From `core/network.py` (round 5): `Network.ErdosRenyi` — the two tests of its if / elif chain over
+`link_probability is (not) None` / `n_links is (not) None` (erTest1/2), which igraph call each branch makes
+(erBranch1/2; arguments normalised: positional -> names, default-valued options dropped), `else: raise
+ValueError`, the returned expression (erReturn); `Network.WattsStrogatz` — the arguments handed to igraph
+(wsCall) and the returned expression (wsReturn).
+
 From `core/interacting_networks.py` (plain Python):
 
   RandomlySetCrossLinks_sparse                -> sparseDraw1/2, sparseBreak, sparseWrites,
@@ -490,6 +496,85 @@ def main():
               + ", ".join(f'("{a}", "{ex.get(a, a)}")' for a in args) + "]",
               f"/-- the cross adjacency `{name}` counts the current links in -/",
               f"def setCrossA : String := \"{ex.get('cross_A', '?')}\"", ""]
+    # ---- round 5: network.py, the igraph-backed generators ErdosRenyi / WattsStrogatz
+    path = os.path.join(REPO, "src/pyunicorn/core/network.py")
+    tree = ast.parse(open(path).read())
+    cls = [n for n in tree.body if isinstance(n, ast.ClassDef) and n.name == "Network"][0]
+    fn = {n.name: n for n in cls.body if isinstance(n, ast.FunctionDef)}
+    GIVEN = {"link_probability": "pGiven", "n_links": "mGiven"}
+
+    def given(e):
+        """`X is None` / `X is not None` / and / or / not over the two optional arguments"""
+        if isinstance(e, ast.BoolOp):
+            op = " && " if isinstance(e.op, ast.And) else " || "
+            return "(" + op.join(given(v) for v in e.values) + ")"
+        if isinstance(e, ast.UnaryOp) and isinstance(e.op, ast.Not):
+            return f"(!{given(e.operand)})"
+        need(isinstance(e, ast.Compare) and len(e.ops) == 1 and isinstance(e.left, ast.Name)
+             and e.left.id in GIVEN and isinstance(e.comparators[0], ast.Constant)
+             and e.comparators[0].value is None and isinstance(e.ops[0], (ast.Is, ast.IsNot)),
+             f"ErdosRenyi: test `{ast.unparse(e)}`")
+        return GIVEN[e.left.id] if isinstance(e.ops[0], ast.IsNot) else f"(!{GIVEN[e.left.id]})"
+
+    def is_print(s_):
+        """`print(…)` or `if silence_level …: print(…)`"""
+        if isinstance(s_, ast.Expr) and isinstance(s_.value, ast.Call) and ast.unparse(s_.value.func) == "print":
+            return True
+        return isinstance(s_, ast.If) and "silence_level" in ast.unparse(s_.test) and not s_.orelse \
+            and all(is_print(b) for b in s_.body)
+
+    def igraph_call(stmts, func, names, defaults, what):
+        """the single statement `graph = igraph.Graph.<func>(…)` of a branch (progress output ignored):
+        positional arguments mapped to their names, default-valued options dropped"""
+        rest = [s_ for s_ in stmts if not is_print(s_)]
+        need(len(rest) == 1 and isinstance(rest[0], ast.Assign) and ast.unparse(rest[0].targets[0]) == "graph"
+             and isinstance(rest[0].value, ast.Call)
+             and ast.unparse(rest[0].value.func) == f"igraph.Graph.{func}", f"{what}: graph = igraph.Graph.{func}(…)")
+        c = rest[0].value
+        need(len(c.args) <= len(names) and all(k.arg for k in c.keywords), f"{what}: arguments of {func}")
+        d = {nm: ast.unparse(a) for nm, a in zip(names, c.args)}
+        d.update({k.arg: ast.unparse(k.value) for k in c.keywords})
+        return {k: v for k, v in d.items() if not (k in defaults and v == defaults[k])}
+
+    er = fn["ErdosRenyi"]
+    need([a.arg for a in er.args.args] == ["n_nodes", "link_probability", "n_links", "silence_level"]
+         and [ast.unparse(d_) for d_ in er.args.defaults][1:3] == ["None", "None"], "ErdosRenyi: signature")
+    body = [s_ for s_ in er.body if not (isinstance(s_, ast.Expr) and isinstance(s_.value, ast.Constant))]
+    need(len(body) == 2 and isinstance(body[0], ast.If) and isinstance(body[1], ast.Return),
+         "ErdosRenyi: if / elif / else, return")
+    if1 = body[0]
+    need(len(if1.orelse) == 1 and isinstance(if1.orelse[0], ast.If), "ErdosRenyi: elif")
+    if2 = if1.orelse[0]
+    need(len(if2.orelse) == 1 and isinstance(if2.orelse[0], ast.Raise)
+         and ast.unparse(if2.orelse[0].exc).startswith("ValueError("), "ErdosRenyi: else raise ValueError")
+    ER_N, ER_D = ("n", "p", "m", "directed", "loops"), {"directed": "False", "loops": "False"}
+    KIND = {(("n", "n_nodes"), ("p", "link_probability")): ".byProbability",
+            (("m", "n_links"), ("n", "n_nodes")): ".byLinkCount"}
+    L += ["/-- which igraph call `Network.ErdosRenyi` makes: `Erdos_Renyi(n=n_nodes, p=link_probability)` /",
+          "`Erdos_Renyi(n=n_nodes, m=n_links)` -/",
+          "inductive ERCall | byProbability | byLinkCount", "deriving DecidableEq, Repr"]
+    for i_, br in ((1, if1), (2, if2)):
+        kw = igraph_call(br.body, "Erdos_Renyi", ER_N, ER_D, f"ErdosRenyi branch {i_}")
+        key = tuple(sorted(kw.items()))
+        need(key in KIND, f"ErdosRenyi branch {i_}: igraph is called with {kw}")
+        L += [f"/-- `{'if' if i_ == 1 else 'elif'} {ast.unparse(br.test)}:` (`pGiven` = `link_probability is not None`, "
+              "`mGiven` = `n_links is not None`) -/",
+              f"def erTest{i_} (pGiven mGiven : Bool) : Bool := {given(br.test)}",
+              f"/-- the call of that branch: `{ast.unparse([s_ for s_ in br.body if not is_print(s_)][0])}` -/",
+              f"def erBranch{i_} : ERCall := {KIND[key]}"]
+    L += ["/-- what `Network.ErdosRenyi` returns -/",
+          f"def erReturn : String := \"{ast.unparse(body[1].value)}\""]
+    ws = fn["WattsStrogatz"]
+    need([a.arg for a in ws.args.args] == ["N", "k", "p"], "WattsStrogatz: signature")
+    wbody = [s_ for s_ in ws.body if not (isinstance(s_, ast.Expr) and isinstance(s_.value, ast.Constant))]
+    need(isinstance(wbody[-1], ast.Return), "WattsStrogatz: return")
+    kw = igraph_call(wbody[:-1], "Watts_Strogatz", ("dim", "size", "nei", "p", "loops", "multiple"),
+                     {"loops": "False", "multiple": "False"}, "WattsStrogatz")
+    L += ["/-- the arguments `Network.WattsStrogatz(N, k, p)` hands to `igraph.Graph.Watts_Strogatz` (sorted by name) -/",
+          "def wsCall : List (String × String) := ["
+          + ", ".join(f'("{k}", "{v}")' for k, v in sorted(kw.items())) + "]",
+          "/-- what `Network.WattsStrogatz` returns -/",
+          f"def wsReturn : String := \"{ast.unparse(wbody[-1].value)}\"", ""]
     L += [
           "end Pyunicorn.Generated.StructC17", ""]
     os.makedirs(os.path.dirname(OUT), exist_ok=True)
